@@ -17,14 +17,16 @@ def main():
                    "baseline_off_cmd": BASE_OFF, "source_commits": [], "add_only": True},
          "engines": [
              {"name": "vsched", "path": "rt/vsched", "serves_properties": sorted(k for k, v in CLAIMED.items() if v.get("engine") == "vsched"),
-              "kind_free_text": "hand-written controlled scheduler + stateless DFS explorer (preemption / environment-deviation bounds, state-key pruning) run against the real code through overlay import rewriting (vinstr)"},
+              "kind_free_text": "hand-written controlled scheduler + stateless DFS explorer (preemption-, delay- and environment-deviation bounds, state-key pruning, symmetry reduction, virtual clock) run against the real code through overlay import rewriting (vinstr); C18 and C02/C03/C04/C17 use it as well for their concurrent scenarios / the virtual clock"},
              {"name": "vbfs", "path": "rt/vbfs", "serves_properties": sorted(k for k, v in CLAIMED.items() if v.get("engine") == "vbfs"),
               "kind_free_text": "explicit-state breadth-first search over operation histories replayed on fresh real objects, reference-model oracle"},
              {"name": "venum", "path": "rt/venum", "serves_properties": sorted(k for k, v in CLAIMED.items() if v.get("engine") == "venum"),
               "kind_free_text": "complete cross-product enumeration of small per-dimension alphabets against the real code"},
+             {"name": "strace-faults", "path": "checks/c20.py", "serves_properties": sorted(k for k, v in CLAIMED.items() if v.get("engine") == "strace"),
+              "kind_free_text": "enumeration of every file-related syscall of a store history of the real client asset store run under strace, with SIGKILL, errno and file-size-limit injection at each one, followed by recovery in a fresh process"},
          ],
          "checks": [], "not_applicable": [],
-         "notes": "All checks: ./vcheck <ID> --tier quick|thorough; replay: ./vcheck replay <file>. Known findings: known_findings.json."}
+         "notes": "All checks: ./vcheck <ID> --tier quick|thorough; replay: ./vcheck replay <file> (implemented for every check). Known findings: known_findings.json (status known = suppressed by exact or prefix key, status fixed = history only). Race-detector companions of C05 C09 C13 C14 C16 C18 are adjunct runs (coverage.adjunct_runs), not deciding steps. Seeded property-breaking changes: seeded/<id>-n, regression ./seedall.sh. Last thorough-tier evidence: evidence/thorough/<id>.json."}
     for i in IDS:
         if i in CLAIMED:
             c = CLAIMED[i]
